@@ -30,7 +30,7 @@ fn days_to_ymd(days: i64) -> (i32, u32, u32) {
 
 /// Convert (year, month, day) to days since Unix epoch
 fn ymd_to_days(year: i32, month: u32, day: u32) -> i64 {
-    let y = if month <= 2 { year - 1 } else { year } as i64;
+    let y = if month <= 2 { year as i64 - 1 } else { year as i64 };
     let m = if month <= 2 { month + 12 } else { month };
     let era = if y >= 0 { y } else { y - 399 } / 400;
     let yoe = (y - era * 400) as u32;
@@ -130,14 +130,16 @@ fn components_to_ts(
 
     // Calculate days, allowing day overflow
     let base_days = ymd_to_days(norm_year, norm_month, 1);
-    let total_days = base_days + (day - 1) as i64;
+    let total_days = base_days + (day as i64 - 1);
 
     let time_ms = hour as i64 * MS_PER_HOUR
         + minute as i64 * MS_PER_MINUTE
         + second as i64 * MS_PER_SECOND
         + ms as i64;
 
-    (total_days * MS_PER_DAY + time_ms) as f64
+    // in floating point: extreme components must give a huge (later clipped) time value
+    // instead of overflowing the integer arithmetic
+    total_days as f64 * MS_PER_DAY as f64 + time_ms as f64
 }
 
 const WEEKDAY_NAMES: [&str; 7] = ["Sun", "Mon", "Tue", "Wed", "Thu", "Fri", "Sat"];
@@ -399,6 +401,10 @@ pub fn date_utc(
     _this: JsValue,
     args: &[JsValue],
 ) -> Result<Guarded, JsError> {
+    // Date.UTC: a NaN or infinite component makes the result NaN
+    if args.iter().take(7).any(|v| !v.to_number().is_finite()) {
+        return Ok(Guarded::unguarded(JsValue::Number(f64::NAN)));
+    }
     let year = args.first().map(|v| v.to_number()).unwrap_or(f64::NAN) as i32;
     let month = args.get(1).map(|v| v.to_number()).unwrap_or(0.0) as i32;
     let day = args.get(2).map(|v| v.to_number()).unwrap_or(1.0) as i32;
@@ -408,6 +414,8 @@ pub fn date_utc(
     let ms = args.get(6).map(|v| v.to_number()).unwrap_or(0.0) as u32;
 
     let timestamp = components_to_ts(year, month, day, hours, minutes, seconds, ms);
+    // TimeClip
+    let timestamp = if timestamp.abs() > 8.64e15 { f64::NAN } else { timestamp };
     Ok(Guarded::unguarded(JsValue::Number(timestamp)))
 }
 
